@@ -86,3 +86,13 @@ Theorem C12_csv_nonvacuous : NoDup (all_keys ex_csv_workbook) /\ Forall PX.Proof
 Proof. exact ex_csv_workbook_ok. Qed.
 Print Assumptions C12_csv_nonvacuous.
 
+
+(* a text in which no line is a table row (whatever number of pipes its cells hold) yields no sheet from the Markdown reader -- which
+   then reports a read error (pinned: process_md_data raises when the structure is empty) and leaves the text to the CSV reader *)
+Theorem C12_text_without_table_rows_is_not_markdown : forall text,
+  (forall l, In l (split_on 10 text) -> is_comment l = true \/ md_cell_group (cut_inline_comment l) = None) -> md_structure text = [].
+Proof. exact no_rows_no_sheets. Qed.
+Print Assumptions C12_text_without_table_rows_is_not_markdown.
+Theorem C12_csv_with_pipes_example : md_structure ex_csv_with_pipes = [] /\ Nat.le 5 (length (filter (fun c => N.eqb c PIPE) ex_csv_with_pipes)).
+Proof. exact ex_csv_has_no_rows. Qed.
+Print Assumptions C12_csv_with_pipes_example.
